@@ -105,4 +105,24 @@ def groupRuns {α} (recs : List (String × α)) : List (String × List α) :=
   go recs none
 
 
+/-- UTF-8 bytes → code points (well-formed input assumed; the harness only sends valid UTF-8) -/
+def utf8Decode : List Nat → List Nat
+  | [] => []
+  | b :: rest =>
+    if b < 0x80 then b :: utf8Decode rest
+    else if b < 0xE0 then
+      match rest with
+      | b1 :: r => ((b % 32) * 64 + b1 % 64) :: utf8Decode r
+      | _ => []
+    else if b < 0xF0 then
+      match rest with
+      | b1 :: b2 :: r => ((b % 16) * 4096 + (b1 % 64) * 64 + b2 % 64) :: utf8Decode r
+      | _ => []
+    else
+      match rest with
+      | b1 :: b2 :: b3 :: r => ((b % 8) * 262144 + (b1 % 64) * 4096 + (b2 % 64) * 64 + b3 % 64) :: utf8Decode r
+      | _ => []
+termination_by l => l.length
+decreasing_by all_goals (simp_wf; try omega)
+
 end Drv
